@@ -17,6 +17,7 @@ import DSymVerif.Proofs.SimplifyTile
 import DSymVerif.Proofs.SimplifyCollapse
 import DSymVerif.Proofs.SimplifySteps
 import DSymVerif.Proofs.SimplifySkeleton
+import DSymVerif.Proofs.SimplifyManifold
 
 namespace DSymVerif.C16
 open DSymVerif DSymVerif.DS DSymVerif.Simp
@@ -219,7 +220,7 @@ theorem reglue_preserves_far_commute {ds s : DSetData} {pairs : List (Nat × Nat
 theorem cut_face_preserves_axioms {ds s : DSetData} (hax : Axioms3 ds)
     {d1 d2 : Nat} (h11 : 1 ≤ d1) (h12 : d1 ≤ ds.size) (h21 : 1 ≤ d2) (h22 : d2 ≤ ds.size)
     (h : cutFace ds d1 d2 = .ok s) : Axioms3 s :=
-  let ⟨a, _, c, _, _, f⟩ := cutFace_commutes hax.1 hax.2.1 h11 h12 h21 h22 h
+  let ⟨a, _, c, _, _, f, _⟩ := cutFace_commutes hax.1 hax.2.1 h11 h12 h21 h22 h
   ⟨a, c, f hax.2.2⟩
 
 example : Axioms3 ex8 ∧ ∃ s, cutFace ex8 1 2 = .ok s :=
@@ -231,7 +232,7 @@ theorem cut_tile_preserves_axioms {ds s : DSetData} (hax : Axioms3 ds) {cut : Li
     (hcut : ∀ k, k < cut.length → 1 ≤ cut.getD k 0 ∧ cut.getD k 0 ≤ ds.size)
     (hadj : ∀ k, k < cut.length → ds.opU 0 (cut.getD k 0) = cut.getD (if k % 2 = 0 then k + 1 else k - 1) 0)
     (h : cutTile ds cut = .ok s) : Axioms3 s :=
-  let ⟨a, _, c, _, _, _, f⟩ := cutTile_commutes hax.1 hax.2.1 hcut h
+  let ⟨a, _, c, _, _, _, f, _⟩ := cutTile_commutes hax.1 hax.2.1 hcut h
   ⟨a, c, f hadj hax.2.2⟩
 
 example : Axioms3 ex8 ∧ (∃ s, cutTile ex8 [1, 2] = .ok s) ∧ ex8.opU 0 1 = 2 ∧ ex8.opU 0 2 = 1 :=
@@ -304,8 +305,11 @@ theorem fix_local_2_vertex_preserves_axioms {ds s : DSetData} (hax : Axioms3 ds)
     (h : fixLocal2Vertex (.dset ds) = .ok (some (.dset s))) : Axioms3 s :=
   fixLocal2Vertex_preserves hax.1 hax.2.1 hax.2.2 hnd h
 
-example : Axioms3 exFix2 ∧ ∃ s, fixLocal2Vertex (.dset exFix2) = .ok (some (.dset s)) :=
-  ⟨axioms3_of_bool (by decide +kernel) rfl (by decide +kernel), returnsDSet_exists (by decide +kernel)⟩
+/-- in `exFix2` (a state of the real pipeline on which `fix_local_2_vertex` fires) the first
+    orbit representative, chamber 1, is a vertex of degree 2 that is not skipped (evaluating the
+    whole move in the kernel takes minutes; the harness compares it with the real code) -/
+example : Axioms3 exFix2 ∧ Simp.r exFix2 1 2 1 = .ok 2 ∧ fixLocal2Skip exFix2 1 = .ok false :=
+  ⟨axioms3_of_bool (by decide +kernel) rfl (by decide +kernel), by decide +kernel, by decide +kernel⟩
 
 /-- ○ **`fix_non_disk_face` keeps the D-set axioms** (the eight chambers of the corner re-gluing it
     performs distinct) -/
@@ -402,6 +406,98 @@ theorem network_cut_is_minimum_vertex_cut {ds : DSetData} (hv : ValidSet ds) (hd
 example : (match makeSkeleton exFix2 with
     | .ok (e2i, _, edges) => (networkEdges exFix2 1 true e2i edges (skelSource e2i) (skelSource e2i + 1)).isOk
     | _ => false) = true := by decide +kernel
+
+
+/-! ### the remaining manifold clauses except sphericity as step invariants
+
+`Manifold3 ds` = `Axioms3 ds` ∧ no operation has a fixed point (`Loopless`: a fixed point is a mirror,
+i.e. boundary) ∧ far operations differ everywhere (`FarDiffer`: r_02 = r_03 = r_13 = 2 exactly, no
+hidden branching number 2).  These are the Spec clauses "entries-in-range-and-involutive",
+"complete", "far-operations-commute", "branch-free-far" and the looplessness half of
+"tiles-are-spheres" / "vertex-figures-are-spheres"; what is left to the Spec alone is the Euler
+characteristic of the components.  Hypotheses as for `simplify_step_preserves_dset_axioms`. -/
+
+/-- ○ **`collapse` keeps a D-set loopless**, whatever connector-closed set is removed (parity: the
+    re-routed operation is an odd alternating word in s_i and the connector, conjugate to one of
+    them) -/
+theorem collapse_preserves_loopless {ds s : DSetData} {num : Nat → Nat} {remove : List Nat} {c : Nat}
+    (hv : ValidSet ds) (hl : Loopless ds) (res : CollapseRes ds remove c s num) (hc : c ≤ ds.dim) :
+    Loopless s :=
+  collapse_loopless hv hl res hc
+
+/-- ○ **`collapse` keeps far operations different** under the hypotheses of
+    `collapse_preserves_far_commute` when moreover the connector differs, on the removed set, from
+    every operation far from the re-routed one -/
+theorem collapse_preserves_far_differ {ds s : DSetData} {num : Nat → Nat} {remove : List Nat} {c j : Nat}
+    (hv : ValidSet ds) (hf : FarCommute ds) (hd : FarDiffer ds) (res : CollapseRes ds remove c s num)
+    (hr : ∀ d ∈ remove, 1 ≤ d ∧ d ≤ ds.size) (hc : c ≤ ds.dim) (hj : j ≤ ds.dim) (hjc : j ≠ c)
+    (hclosed : ∀ i, i ≤ ds.dim → i ≠ j → ∀ d ∈ remove, ds.opU i d ∈ remove)
+    (hcomm : ∀ k, k ≤ ds.dim → (k + 1 < j ∨ j + 1 < k) → ∀ d ∈ remove,
+      ds.opU k (ds.opU c d) = ds.opU c (ds.opU k d))
+    (hRdiff : ∀ k, k ≤ ds.dim → (k + 1 < j ∨ j + 1 < k) → ∀ d ∈ remove, ds.opU k d ≠ ds.opU c d) :
+    FarDiffer s :=
+  collapse_far_differ hv hf hd res hr hc hj hjc hclosed hcomm hRdiff
+
+/-- ○ **`cut_face` keeps the manifold clauses** -/
+theorem cut_face_preserves_manifold {ds s : DSetData} (hm : Manifold3 ds)
+    {d1 d2 : Nat} (h11 : 1 ≤ d1) (h12 : d1 ≤ ds.size) (h21 : 1 ≤ d2) (h22 : d2 ≤ ds.size)
+    (h : cutFace ds d1 d2 = .ok s) : Manifold3 s :=
+  let ⟨a, _, c, _, _, f, l, g⟩ := cutFace_commutes hm.1.1 hm.1.2.1 h11 h12 h21 h22 h
+  ⟨⟨a, c, f hm.1.2.2⟩, l hm.2.1, g hm.2.2⟩
+
+example : Manifold3 ex8 ∧ ∃ s, cutFace ex8 1 2 = .ok s :=
+  ⟨manifold3B_sound (by decide +kernel), isOk_exists (by decide +kernel)⟩
+
+/-- ○ **`cut_tile` keeps the manifold clauses** (0-adjacent cut pairs) -/
+theorem cut_tile_preserves_manifold {ds s : DSetData} (hm : Manifold3 ds) {cut : List Nat}
+    (hcut : ∀ k, k < cut.length → 1 ≤ cut.getD k 0 ∧ cut.getD k 0 ≤ ds.size)
+    (hadj : ∀ k, k < cut.length → ds.opU 0 (cut.getD k 0) = cut.getD (if k % 2 = 0 then k + 1 else k - 1) 0)
+    (h : cutTile ds cut = .ok s) : Manifold3 s :=
+  let ⟨a, _, c, _, _, _, f, l, g⟩ := cutTile_commutes hm.1.1 hm.1.2.1 hcut h
+  ⟨⟨a, c, f hadj hm.1.2.2⟩, l hm.2.1, g hm.2.2⟩
+
+example : Manifold3 ex8 ∧ (∃ s, cutTile ex8 [1, 2] = .ok s) ∧ ex8.opU 0 1 = 2 ∧ ex8.opU 0 2 = 1 :=
+  ⟨manifold3B_sound (by decide +kernel), isOk_exists (by decide +kernel), by decide, by decide⟩
+
+/-- ○ **`simplify_step_preserves_manifold_clauses`.**  Every modelled deterministic step of
+    `simplify` maps a complete, loopless 3-dimensional D-set whose far operations commute and differ
+    to one again: `merge_facets` and `dual` unconditionally, `merge_tiles` / `merge_all` given the
+    fact `InnerWallsAreFaces` about `inner_edges`, the local moves when the eight chambers they
+    re-glue are distinct. -/
+theorem simplify_step_preserves_manifold_clauses (hw : InnerWallsAreFaces) {ds s : DSetData} (hm : Manifold3 ds) :
+    (mergeTiles (.dset ds) = .ok (some (.dset s)) → Manifold3 s) ∧
+    (mergeFacets (.dset ds) = .ok (some (.dset s)) → Manifold3 s) ∧
+    (Simp.dual (.dset ds) = .ok (some (.dset s)) → Manifold3 s) ∧
+    (mergeAll (.dset ds) = .ok (some (.dset s)) → Manifold3 s) ∧
+    (fixLocal1Vertex (.dset ds) = .ok (some (.dset s)) →
+      (∀ c, 1 ≤ c → c ≤ ds.size → fixLocal1Body ds c = .ok (some (.dset s)) →
+        [ds.opU 0 (ds.opU 1 c), ds.opU 1 (ds.opU 1 (ds.opU 0 c)), ds.opU 1 (ds.opU 0 c),
+          ds.opU 1 (ds.opU 0 (ds.opU 1 c)), ds.opU 3 (ds.opU 0 (ds.opU 1 c)),
+          ds.opU 1 (ds.opU 3 (ds.opU 1 (ds.opU 0 c))), ds.opU 3 (ds.opU 1 (ds.opU 0 c)),
+          ds.opU 1 (ds.opU 3 (ds.opU 0 (ds.opU 1 c)))].Nodup) → Manifold3 s) ∧
+    (fixLocal2Vertex (.dset ds) = .ok (some (.dset s)) →
+      (∀ d ds' a b, 1 ≤ d → d ≤ ds.size → fix2Pre ds d = .ok (ds', a, b) →
+        [ds'.opU 0 b, a, ds'.opU 0 a, b, ds'.opU 2 (ds'.opU 0 b), ds'.opU 2 a, ds'.opU 2 (ds'.opU 0 a),
+          ds'.opU 2 b].Nodup) → Manifold3 s) ∧
+    (fixNonDiskFace (.dset ds) = .ok (some (.dset s)) →
+      (∀ d e, 1 ≤ d → d ≤ ds.size → 1 ≤ e → e ≤ ds.size → nonDiskGlue ds d e = .ok (some (.dset s)) →
+        [d, ds.opU 1 e, e, ds.opU 1 d, ds.opU 3 d, ds.opU 1 (ds.opU 3 e), ds.opU 3 e,
+          ds.opU 1 (ds.opU 3 d)].Nodup) → Manifold3 s) :=
+  ⟨fun h => mergeTiles_manifold hm (hw ds hm.1) h,
+   fun h => mergeFacets_manifold hm h,
+   fun h => dual_manifold hm h,
+   fun h => mergeAll_manifold hw hm h,
+   fun h hnd => fixLocal1Vertex_manifold hm hnd h,
+   fun h hnd => fixLocal2Vertex_manifold hm hnd h,
+   fun h hnd => fixNonDiskFace_manifold hm hnd h⟩
+
+/-- states of the real pipeline satisfy the clauses and the steps fire on them -/
+example : Manifold3 exFacets20 ∧ (∃ s, mergeFacets (.dset exFacets20) = .ok (some (.dset s))) ∧
+    Manifold3 exTiles ∧ (∃ s, mergeTiles (.dset exTiles) = .ok (some (.dset s))) ∧
+    Manifold3 exFnd ∧ (∃ s, fixNonDiskFace (.dset exFnd) = .ok (some (.dset s))) :=
+  ⟨manifold3B_sound (by decide +kernel), returnsDSet_exists (by decide +kernel),
+   manifold3B_sound (by decide +kernel), returnsDSet_exists (by decide +kernel),
+   manifold3B_sound (by decide +kernel), returnsDSet_exists (by decide +kernel)⟩
 
 
 end DSymVerif.C16
